@@ -261,6 +261,41 @@ theorem refines_run (v : View) (m : PortMap) (h : List Notif) (hr : Refines v m)
   | nil => exact hr
   | cons n h ih => exact ih _ _ (refines_status v m n hr)
 
+/-! ### a variant of `_update` that does not clear the mask (it refines the same map: the mask of a number that has an own
+entry is never consulted) -/
+
+def _root_.Pox.PortView.PC.updateKeepMask (c : PC) (p : Port) : PC :=
+  { masks := c.masks, ports := c.ports.filter (fun q => q.no != p.no) ++ [p] }
+
+def portStatusKeepMask (v : View) (reason : Nat) (p : Port) : View :=
+  if reason = OFPPR_DELETE then { v with cur := v.cur.forget p }
+  else { v with cur := v.cur.updateKeepMask p }
+
+def runNotifsKeepMask (v : View) (h : List Notif) : View :=
+  h.foldl (fun v n => portStatusKeepMask v n.reason n.port) v
+
+theorem refines_updateKeepMask (v : View) (m : PortMap) (p : Port) (h : Refines v m) :
+    Refines { v with cur := v.cur.updateKeepMask p } (Spec17.set m p.no (some p)) := by
+  intro k
+  have hk := h k
+  rw [getNoC_view] at hk ⊢
+  simp only [PC.updateKeepMask, find_update, Spec17.set]
+  by_cases e : k = p.no
+  · simp [e]
+  · simp only [e, ↓reduceIte]
+    exact hk
+
+theorem refines_runKeepMask (v : View) (m : PortMap) (h : List Notif) (hr : Refines v m) :
+    Refines (runNotifsKeepMask v h) (h.foldl Spec17.apply m) := by
+  induction h generalizing v m with
+  | nil => exact hr
+  | cons n h ih =>
+    refine ih _ _ ?_
+    cases n with
+    | add p => exact refines_updateKeepMask v m p hr
+    | modify p => exact refines_updateKeepMask v m p hr
+    | delete p => exact refines_forget v m p hr
+
 /-! ### `original_ports` is written only by the features reply -/
 
 theorem portStatus_orig (v : View) (r : Nat) (p : Port) : (portStatus v r p).orig = v.orig := by
